@@ -243,7 +243,13 @@ def h_any_length(kind, op):
         cont, c0 = contents(vm, owner)
         data = cont.fields["__data__"]
         Elem = cls(vm, "pyvc_synth_c16", "Elem")
-        source = SymStream("assigned-elements", lambda it, i: it.alloc(Elem, {}, tag="arbitrary-element"), length=ctx.fresh_int("n_source"))
+        earlier = vm.alloc(Elem, {}, tag="added-by-an-earlier-iteration")
+
+        def element(it, i):
+            # an arbitrary iteration starts from an arbitrary container: empty (first iteration) or already filled
+            data.items[:] = [earlier] if it.ctx.choice(2, "container-already-has-elements?") == 1 else []
+            return it.alloc(Elem, {}, tag="arbitrary-element")
+        source = SymStream("assigned-elements", element, length=ctx.fresh_int("n_source"))
         if op == "assign":
             vm.spec.stubs["krrood.entity_query_language.utils:make_list"] = lambda it, a, k: source if a[0] is source else INLINE
             vm.spec.stubs["krrood.ontomatic.property_descriptor.property_descriptor:make_list"] = vm.spec.stubs["krrood.entity_query_language.utils:make_list"]
